@@ -287,7 +287,11 @@ func TestVerifC10Worker(t *testing.T) {
 	}
 	defer in.Close()
 	start := zzverif.EnvInt("VERIF_START", 0)
-	out, err := os.OpenFile(filepath.Join(zzverif.OutDir(), "impl.txt"), os.O_APPEND|os.O_CREATE|os.O_WRONLY, 0o644)
+	implName := os.Getenv("VERIF_IMPL_NAME")
+	if implName == "" {
+		implName = "impl.txt"
+	}
+	out, err := os.OpenFile(filepath.Join(zzverif.OutDir(), implName), os.O_APPEND|os.O_CREATE|os.O_WRONLY, 0o644)
 	if err != nil {
 		t.Fatal(err)
 	}
